@@ -13,6 +13,7 @@ import (
 	"errors"
 	"fmt"
 	"os"
+	"path/filepath"
 	"sort"
 	"strings"
 	"time"
@@ -146,6 +147,9 @@ func (h *c10H) runC10(kind string, o c10Opt) error {
 		obs = fmt.Sprintf("(Plan %s %s %s %s %s %s)", ids(rf), ids(rm), ids(rp), ids(ig), c10Ns(ks), c10Stats(st))
 		human = fmt.Sprintf("plan first=%d remove=%d repack=%d ignore=%d keep=%d; blobs used=%d dup=%d unused=%d remain=%d; bytes total=%d remain=%d; packs keep=%d",
 			len(rf), len(rm), len(rp), len(ig), len(keep), st.Blobs.Used, st.Blobs.Duplicate, st.Blobs.Unused, st.Blobs.Remain, st.Size.Total, st.Size.Remain, st.Packs.Keep)
+		if h.beforeExecute != nil {
+			h.beforeExecute()
+		}
 		execErr = plan.Execute(ctx, printer)
 		return nil
 	})
@@ -200,12 +204,12 @@ func engineC10(c *vctx) error {
 	c.Header("Model.S_Prune Model.C10m", "C10m.case", "C10m.check_case")
 	c.Preamble("Import SPrune. Import C10m.")
 	repository.VerifC10SetLockWait(time.Millisecond)
-	kinds := []string{"dup-unindexed", "plain", "dup-missing", "missing-unneeded", "abort-index", "dup", "unindexed"}
+	kinds := []string{"dup-unindexed", "plain", "dup-missing", "pure-missing", "dup-race", "missing-unneeded", "abort-index", "dup", "unindexed"}
 	optsGrid := []c10Opt{
-		{maxUnused: "0"}, {maxUnused: "0", uncompressed: true}, {maxUnused: "0"}, {maxUnused: "0"},
+		{maxUnused: "0"}, {maxUnused: "0", uncompressed: true}, {maxUnused: "0"}, {maxUnused: "0"}, {maxUnused: "0"}, {maxUnused: "0"},
 		{maxUnused: "0"}, {maxUnused: "0", small: "5M"}, {maxUnused: "0", cacheable: true},
 	}
-	nh := c.n(3, 60)
+	nh := c.n(5, 63)
 	for i := 0; i < nh; i++ {
 		rng := c.rng.fork()
 		kind := kinds[i%len(kinds)]
@@ -214,8 +218,30 @@ func engineC10(c *vctx) error {
 			return fmt.Errorf("history %d (%s): %v", i, kind, err)
 		}
 		o := optsGrid[i%len(optsGrid)]
+		if kind == "dup-race" {
+			// the outcome depends on the scheduling of the repack workers: several rounds from the same state
+			h.clearLocks()
+			s0 := filepath.Join(h.root, "state0")
+			if err := c10Copy(h.e.repo, s0); err != nil {
+				return err
+			}
+			for round := 0; round < c.n(4, 8); round++ {
+				if err := c10Sync(s0, h.e.repo); err != nil {
+					return err
+				}
+				if err := h.runC10(kind, o); err != nil {
+					return fmt.Errorf("run %d (%s): %v", i, kind, err)
+				}
+			}
+			_ = os.RemoveAll(h.root)
+			continue
+		}
 		if err := h.runC10(kind, o); err != nil {
 			return fmt.Errorf("run %d (%s): %v", i, kind, err)
+		}
+		if kind == "pure-missing" {
+			_ = os.RemoveAll(h.root)
+			continue
 		}
 		// second round on the pruned repository: more backups, forgets, an interrupted prune, then full prune
 		prev := h.snaps[len(h.snaps)-1].src
